@@ -45,14 +45,16 @@ def export_ssa():
     cache = os.path.join(VERIF, '.cache')
     os.makedirs(cache, exist_ok=True)
     dg = repo_digest()
-    out = os.path.join(cache, 'ssa-%s.json' % dg)
-    if os.path.exists(out) and os.path.getsize(out) > 0:
-        return out, dg, 0.0, True
-    exe = os.path.join(VERIF, 'bin', 'ssaexport')
-    if not os.path.exists(exe):
+    exe = os.environ.get('VERIF_SSAEXPORT') or os.path.join(VERIF, 'bin', 'ssaexport')
+    src = os.path.join(VERIF, 'engine', 'ssaexport', 'main.go')
+    if not os.path.exists(exe) or (not os.environ.get('VERIF_SSAEXPORT') and os.path.getmtime(src) > os.path.getmtime(exe)):
         r = sh('cd %s/engine/ssaexport && GOFLAGS=-mod=mod GOPROXY=off GOSUMDB=off GOTOOLCHAIN=local go build -o %s .' % (VERIF, exe))
         if r.returncode != 0:
             raise RuntimeError('cannot build ssaexport: ' + r.stderr[-2000:])
+    est = os.stat(exe)
+    out = os.path.join(cache, 'ssa-%s-%x%x.json' % (dg, int(est.st_mtime) & 0xffffff, est.st_size & 0xffff))
+    if os.path.exists(out) and os.path.getsize(out) > 0:
+        return out, dg, 0.0, True
     t0 = time.time()
     tmp = out + '.tmp%d' % os.getpid()
     r = sh('%s -dir %s -o %s' % (exe, REPO, tmp))
@@ -63,7 +65,7 @@ def export_ssa():
     os.replace(tmp, out)
     # keep the cache small
     files = sorted((os.path.getmtime(os.path.join(cache, f)), f) for f in os.listdir(cache) if f.startswith('ssa-'))
-    for _, f in files[:-4]:
+    for _, f in files[:-6]:
         try:
             os.unlink(os.path.join(cache, f))
         except OSError:
@@ -82,7 +84,11 @@ def attribute(ex, contract, o, default_safety):
         return set(o.props) | ({'C11'} if 'C11' in cprops else set()) | cprops
     if o.props:
         return set(o.props)
-    return cprops
+    if o.kind == 'pre':
+        # an untagged precondition protects the callee's own proof, its panic freedom included
+        return cprops | set(default_safety)
+    # untagged clauses of a contract without any tag (pure safety contracts) support the safety sweep
+    return cprops or set(default_safety)
 
 
 def worker(args):
